@@ -20,8 +20,10 @@ type TxnSpec struct {
 	Table  int    `json:"table"`
 	Key    int    `json:"key"`
 	Commit bool   `json:"commit"`
-	Form   int    `json:"form,omitempty"` // forupd: 1 = the table is the joined (second) table of the FOR UPDATE query
-	Noop   int    `json:"noop,omitempty"` // forupd / inc: a data-changing statement that matches no record follows the first statement (1 UPDATE, 2 DELETE, 3 INSERT ... SELECT of nothing)
+	Form   int    `json:"form,omitempty"`   // forupd: 1 = the table is the joined (second) table of the FOR UPDATE query
+	Noop   int    `json:"noop,omitempty"`   // forupd / inc: a data-changing statement that matches no record follows the first statement (1 UPDATE, 2 DELETE, 3 INSERT ... SELECT of nothing)
+	Table2 int    `json:"table2,omitempty"` // inc2: the second table of the transaction
+	Key2   int    `json:"key2,omitempty"`
 }
 
 type wtChoice struct {
@@ -88,6 +90,15 @@ func txnProgram(j int, tx TxnSpec, uniq int) []string {
 			s = append(s, fmt.Sprintf("UPDATE %s SET n = n + 1 WHERE id = %d;", t, tx.Key))
 		}
 		s = append(s, sel(2, "")...)
+	case "inc2":
+		// one transaction over two tables (processes take them in either order: the lock-order cycle is
+		// resolved by the wait timeout, and whoever gives up changes neither table)
+		t2 := tableName(tx.Table2)
+		s = append(s, fmt.Sprintf("UPDATE %s SET n = n + 1 WHERE id = %d;", t, tx.Key))
+		s = append(s, fmt.Sprintf("ECHO '@M %d';", j))
+		s = append(s, fmt.Sprintf("UPDATE %s SET n = n + 1 WHERE id = %d;", t2, tx.Key2))
+		s = append(s, sel(2, "")...)
+		s = append(s, fmt.Sprintf("ECHO '@Q %d.%d';", j, 3), fmt.Sprintf("SELECT id, n FROM %s;", t2))
 	case "selinc":
 		s = append(s, sel(1, "")...)
 		s = append(s, fmt.Sprintf("ECHO '@M %d';", j))
@@ -238,6 +249,10 @@ func genCounterScenario(prop string, seed uint64, tier string, maxProcs int) (*S
 			}
 			if tx.Kind == "ins" && r.Bool(0.3) {
 				tx.Form = 1
+			}
+			if r2 := Sub(seed, fmt.Sprintf("c09-inc2-%d-%d", p, j)); prop == "C09" && ntab == 2 && tx.Kind == "inc" && tx.Form == 0 && r2.Bool(0.6) {
+				tx.Kind, tx.Table2 = "inc2", 1-tb
+				tx.Key2 = r2.Range(1, meta.Rows[1-tb])
 			}
 			txs = append(txs, tx)
 			stmts = append(stmts, txnProgram(j, tx, uniqKey(p, j))...)
@@ -722,6 +737,26 @@ func judgeCounterRun(o *Outcome, prop string, sc *Scenario, meta *c09Meta, res *
 					if tx.Commit && e != nil {
 						committed[tx.Table][fmt.Sprintf("inc:%d", tx.Key)]++
 					}
+				}
+			case "inc2":
+				// both tables change, or neither
+				done := tx.Commit && e != nil
+				ob2, has2 := obs(q[2])
+				ops[tx.Table] = append(ops[tx.Table], porcupine.Operation{ClientId: pi,
+					Input: histIn{Kind: "write", Delta: "inc", Key: tx.Key, Commit: done, Who: who + ".a"},
+					Call:  2 * b.step, Output: histOut{Started: has2, Obs: ob2, HasObs: has2}, Return: 2*ret + 1})
+				if m != nil {
+					ob3, has3 := obs(q[3])
+					ops[tx.Table2] = append(ops[tx.Table2], porcupine.Operation{ClientId: pi,
+						Input: histIn{Kind: "write", Delta: "inc", Key: tx.Key2, Commit: done, Who: who + ".b"},
+						Call:  2 * m.step, Output: histOut{Started: has3, Obs: ob3, HasObs: has3}, Return: 2*ret + 1})
+				}
+				if done {
+					committed[tx.Table]["inc:"+strconv.Itoa(tx.Key)]++
+					committed[tx.Table2]["inc:"+strconv.Itoa(tx.Key2)]++
+					o.Stats.probe("two-table-transaction-committed")
+				} else if e == nil {
+					o.Stats.probe("two-table-transaction-gave-up")
 				}
 			case "inc", "forupd", "ins":
 				delta, key := "inc", tx.Key
